@@ -611,8 +611,12 @@ func (r *Run) merge(d *dump) {
 		if f, ok := v.(float64); ok {
 			cur, _ := r.Extra[k].(float64)
 			r.Extra[k] = cur + f
-		} else if _, exists := r.Extra[k]; !exists {
+		} else if old, exists := r.Extra[k]; !exists {
 			r.Extra[k] = v
+		} else if so, ok := old.(string); ok {
+			if sv, ok := v.(string); ok && sv != so {
+				r.Extra[k+"_mismatch"] = so + " vs " + sv
+			}
 		}
 	}
 	for _, c := range d.Caps {
@@ -645,4 +649,30 @@ func (r *Run) Done() {
 		r.FinishWorker()
 	}
 	r.Finish()
+}
+
+
+// CheckDigests reports a finding for every string extra that two workers
+// set to different values, and drops the digests from the evidence.
+func (r *Run) CheckDigests(sig, format string) {
+	r.mu.Lock()
+	var bad []string
+	for k, v := range r.Extra {
+		if strings.HasSuffix(k, "_mismatch") {
+			bad = append(bad, fmt.Sprintf(format, strings.TrimSuffix(k, "_mismatch"))+": "+fmt.Sprint(v))
+		}
+	}
+	n := 0
+	for k := range r.Extra {
+		if strings.HasPrefix(k, "digest_") {
+			delete(r.Extra, k)
+			n++
+		}
+	}
+	r.Extra["digests_compared_across_processes"] = n
+	r.mu.Unlock()
+	sort.Strings(bad)
+	for _, b := range bad {
+		r.Report(Finding{Sig: sig, What: b})
+	}
 }
